@@ -184,31 +184,58 @@ def new_vm(program):
 
 
 class Ran:
-    __slots__ = ("ok", "value", "exc", "steps", "diverged")
+    __slots__ = ("ok", "value", "exc", "steps", "diverged", "timed_out")
 
-    def __init__(self, ok, value=None, exc=None, steps=0, diverged=False):
+    def __init__(self, ok, value=None, exc=None, steps=0, diverged=False, timed_out=False):
         self.ok = ok
         self.value = value
         self.exc = exc
         self.steps = steps
         self.diverged = diverged
+        self.timed_out = timed_out  # wall-clock guard hit: inconclusive, never a verdict
+
+
+class TimeLimit(BaseException):
+    pass
+
+
+INVOKE_SECONDS = 6.0  # guard against bignum blow-up (x *= x in a loop); expiry = inconclusive
 
 
 def invoke(vm, fname, args, budget=None):
+    import signal
     _Steps.count = 0
     _Steps.limit = budget if budget is not None else float("inf")
+
+    def on_alarm(signum, frame):
+        raise TimeLimit()
+
+    prev_handler = signal.getsignal(signal.SIGALRM)
+    prev_left = signal.alarm(0)
+    signal.signal(signal.SIGALRM, on_alarm)
+    signal.setitimer(signal.ITIMER_REAL, INVOKE_SECONDS)
     try:
-        with quiet():
-            v = vm.Invoke(fname, **args)
-        return Ran(True, value=v, steps=_Steps.count)
+        try:
+            with quiet():
+                v = vm.Invoke(fname, **args)
+            return Ran(True, value=v, steps=_Steps.count)
+        finally:
+            signal.setitimer(signal.ITIMER_REAL, 0)
     except StepLimit:
         return Ran(False, steps=_Steps.count, diverged=True)
+    except TimeLimit:
+        return Ran(False, steps=_Steps.count, diverged=True, timed_out=True)
     except RecursionError as e:
         return Ran(False, exc=e, steps=_Steps.count)
+    except MemoryError as e:
+        return Ran(False, steps=_Steps.count, diverged=True, timed_out=True)
     except Exception as e:
         return Ran(False, exc=e, steps=_Steps.count)
     finally:
         _Steps.limit = float("inf")
+        signal.signal(signal.SIGALRM, prev_handler if prev_handler is not None else signal.SIG_DFL)
+        if prev_left:
+            signal.alarm(max(1, prev_left))
 
 
 def listing(irmodule):
